@@ -42,8 +42,7 @@ def samples_lib_param(ex, path, name):
     return o
 
 
-def _lib_getitem(ex, path, key, node):
-    recv = ex.ev(node.value, path)
+def _lib_getitem(ex, path, recv, key, node):
     if key == "ln_prior":
         return recv.fields["lnp"]
     raise Unsupported(f"library[{key!r}]")
@@ -58,7 +57,7 @@ def _tb_open(ex, path, args, kwargs, node, fn):
     if not isinstance(f, Obj):
         raise Unsupported("open_file on a non-file value")
     root = Obj("tb.root", {"file": f})
-    root.fields["__getitem__"] = lambda ex_, p_, key, n_: Obj("tb.node", {"file": f, "shape": PyList([f.fields["nrows"]], None, True)})
+    root.fields["__getitem__"] = lambda ex_, p_, recv_, key, n_: Obj("tb.node", {"file": f, "shape": PyList([f.fields["nrows"]], None, True)})
     return Obj("tb.file", {"root": root, "file": f})
 
 
